@@ -149,6 +149,12 @@ def run_cases(binary, lines, tag):
                 if p.poll() is not None:
                     errtxt = p.stderr.read() if p.stderr else ''
                     if p.returncode != 0:
+                        if impl and (p.returncode < 0 or p.returncode in (134, 139)):
+                            # the implementation harness was killed by a signal inside one case (stack overflow from
+                            # unbounded recursion, abort): an observation like a panic, not an infrastructure failure
+                            hung.append((path, sh_lines, 'CRASH'))
+                            del live[path]
+                            continue
                         for q in live.values():
                             if q[1].poll() is None:
                                 q[1].kill()
@@ -170,17 +176,19 @@ def run_cases(binary, lines, tag):
                             if q[1].poll() is None:
                                 q[1].kill()
                         raise Infra('%s did not finish a shard within %.0f s' % (binary, CASE_TIMEOUT))
-                    hung.append((path, sh_lines))
+                    hung.append((path, sh_lines, 'HANG'))
                     del live[path]
-        for path, sh_lines in hung:
+        for path, sh_lines, what in hung:
             part = {}
             _parse_out(path, part)
+            # a line cut short by the kill is not an observation
+            part = {k: v for k, v in part.items() if k in set(l.split(' ', 1)[0] for l in sh_lines)}
             res.update(part)
             ids = [l.split(' ', 1)[0] for l in sh_lines]
             missing = [k for k, i_ in enumerate(ids) if i_ not in part]
             if missing:
                 k = missing[0]
-                res[ids[k]] = {key: 'HANG' for key in ('r', 'size', 'writes', 'items')}
+                res[ids[k]] = {key: what for key in ('r', 'size', 'writes', 'items')}
                 HANGS[0] += 1
                 if HANGS[0] <= HANG_BUDGET:
                     retry += sh_lines[k + 1:]
